@@ -248,4 +248,111 @@ theorem encEntries_none_of_value (bo : ByteOrder) (k : Base) (vt : Ty) (kv vv : 
     encEntries bo off k vt (.struct [kv, vv] :: rest) = none := by
   simp only [encEntries, hk, h]
 
+/-! ### the contexts the engine wraps a byte array in -/
+
+theorem padLen_one' (off : Nat) : padLen 1 off = 0 := by simp [padLen, Nat.mod_one]
+
+theorem encList_bytes_length (bo : ByteOrder) (ns : List Nat) (off : Nat) (body : List UInt8)
+    (h : encList bo off (.base .byte) (ns.map Val.num) = some body) : body.length = ns.length := by
+  induction ns generalizing off body with
+  | nil => simp only [List.map_nil, encList, Option.some.injEq] at h; subst h; rfl
+  | cons n ns ih =>
+    rw [List.map_cons] at h
+    obtain ⟨b, r, h1, h2, rfl⟩ := encList_cons_some h
+    simp only [enc, encBase, Base.fixedSize] at h1
+    split at h1
+    · simp only [Option.some.injEq] at h1
+      subst h1
+      have hb : (zeros (padLen Base.byte.align off) ++ bytesOf bo 1 n).length = 1 := by
+        simp [zeros_length, bytesOf_length, Base.align, padLen_one']
+      rw [List.length_append, hb, ih _ _ h2, List.length_cons]; omega
+    · cases h1
+
+/-- length of an accepted byte array: padding to 4, the length word, the bytes -/
+theorem enc_bytes_length (bo : ByteOrder) (off : Nat) (ns : List Nat) (bs : List UInt8)
+    (h : enc bo off (.array (.base .byte)) (.arr (ns.map Val.num)) = some bs) :
+    bs.length = padLen 4 off + 4 + ns.length := by
+  obtain ⟨body, hb, _, rfl⟩ := enc_array_some h
+  have := encList_bytes_length bo ns _ body hb
+  simp only [List.length_append, zeros_length, bytesOf_length, this, Ty.align, Base.align, padLen_one']
+  omega
+
+theorem byte_array_isSome (bo : ByteOrder) (off : Nat) (ns : List Nat) (hn : ∀ n ∈ ns, n < 256) :
+    (enc bo off (.array (.base .byte)) (.arr (ns.map Val.num))).isSome = arrOk 1 ns.length :=
+  fixed_array_isSome bo off .byte 1 ns rfl rfl (by simpa using hn)
+
+/-- a struct `(y T)`: accepted exactly when the second field is accepted at its offset -/
+theorem struct_y_ctx (bo : ByteOrder) (off x : Nat) (hx : x < 256) (t : Ty) (v : Val) :
+    (enc bo off (.struct [.base .byte, t]) (.struct [.num x, v])).isSome =
+      (enc bo (off + padLen 8 off + 1) t v).isSome := by
+  have hb : Base.byte.bound = 256 := rfl
+  rw [enc]
+  simp only [List.isEmpty_cons, Bool.false_eq_true, if_false, encFields]
+  rw [enc]
+  simp only [encBase, Base.fixedSize, hb, hx, if_true, List.length_append, zeros_length, bytesOf_length,
+    Base.align, padLen_one', Nat.zero_add]
+  cases enc bo (off + padLen 8 off + 1) t v <;> rfl
+
+/-- a byte array as the second field of a struct `(yay)`: accepted exactly when the array is -/
+theorem struct_ctx (bo : ByteOrder) (off x : Nat) (hx : x < 256) (ns : List Nat) (hn : ∀ n ∈ ns, n < 256) :
+    (enc bo off (.struct [.base .byte, .array (.base .byte)]) (.struct [.num x, .arr (ns.map Val.num)])).isSome =
+      arrOk 1 ns.length := by
+  rw [struct_y_ctx bo off x hx, byte_array_isSome bo _ ns hn]
+
+/-- a variant: accepted exactly when the payload (of a valid type) is accepted at its offset -/
+theorem variant_any_ctx (bo : ByteOrder) (off : Nat) (t : Ty) (v : Val) (ht : variantTypeOk t = true) :
+    (enc bo off .variant (.variant t v)).isSome = (enc bo (off + (sigBytes t).length + 2) t v).isSome := by
+  rw [enc]
+  simp only [ht, if_true]
+  cases enc bo (off + (sigBytes t).length + 2) t v <;> rfl
+
+/-- a byte array in a variant: accepted exactly when the array is -/
+theorem variant_ctx (bo : ByteOrder) (off : Nat) (ns : List Nat) (hn : ∀ n ∈ ns, n < 256) :
+    (enc bo off .variant (.variant (.array (.base .byte)) (.arr (ns.map Val.num)))).isSome =
+      arrOk 1 ns.length := by
+  rw [variant_any_ctx bo off _ _ (by decide), byte_array_isSome bo _ ns hn]
+
+
+theorem encBase_key_k (bo : ByteOrder) (o : Nat) :
+    encBase bo o .string (.str [107]) = some (zeros (padLen 4 o) ++ (bytesOf bo 4 1 ++ [107, 0])) := by
+  have h1 : strOk .string [107] = true := by decide
+  simp [encBase, Base.fixedSize, h1]
+
+/-- a byte array as the value of the only entry `"k"` of a dict `a{say}`: the dict's own element region is
+    `12 + n` bytes (key 6, padding 2, length word 4, the bytes), and that is what decides -/
+theorem dict1_ctx (bo : ByteOrder) (off : Nat) (ns : List Nat) (hn : ∀ n ∈ ns, n < 256) :
+    (enc bo off (.dict .string (.array (.base .byte)))
+      (.arr [.struct [.str [107], .arr (ns.map Val.num)]])).isSome =
+      decide (12 + ns.length ≤ maxArrayLen) := by
+  have hin := byte_array_isSome bo
+    (off + padLen 4 off + 4 + padLen 8 (off + padLen 4 off + 4) + 6) ns hn
+  have hlen := enc_bytes_length bo
+    (off + padLen 4 off + 4 + padLen 8 (off + padLen 4 off + 4) + 6) ns
+  generalize hv : Val.arr (ns.map Val.num) = v at hin hlen ⊢
+  generalize ht : Ty.array (.base .byte) = t at hin hlen ⊢
+  generalize hS : off + padLen 4 off + 4 + padLen 8 (off + padLen 4 off + 4) = S at hin hlen ⊢
+  have hS8 : padLen 8 S = 0 := by subst hS; simp only [padLen]; omega
+  have hS4 : padLen 4 S = 0 := by subst hS; simp only [padLen]; omega
+  have hS6 : padLen 4 (S + 6) = 2 := by subst hS; simp only [padLen]; omega
+  rw [enc]
+  simp only [hS, encEntries, hS8, Nat.add_zero, encBase_key_k, hS4, zeros, List.replicate_zero, List.nil_append,
+    List.length_append, bytesOf_length, List.length_cons, List.length_nil]
+  cases he : enc bo (S + 6) t v with
+  | none =>
+    rw [he] at hin
+    have : ¬ (12 + ns.length ≤ maxArrayLen) := by
+      intro hc
+      have : arrOk 1 ns.length = true := by simp [arrOk]; omega
+      rw [this] at hin; cases hin
+    simp [this]
+  | some vb =>
+    have hl := hlen vb he
+    rw [hS6] at hl
+    dsimp only
+    by_cases hc : 12 + ns.length ≤ maxArrayLen
+    · rw [if_pos (by simp only [List.length_append, List.length_nil, List.length_cons, bytesOf_length]; omega)]
+      simp [hc]
+    · rw [if_neg (by simp only [List.length_append, List.length_nil, List.length_cons, bytesOf_length]; omega)]
+      simp [hc]
+
 end Rustbus.Limits
